@@ -571,15 +571,46 @@ def asan_lines(check, harness, lines, what="", timeout=3000):
     return True
 
 
-def coqchk(check, timeout=1500):
-    """(added for C10/C12/C14, thorough tier) Re-check the compiled closure of Props/Properties_<id>.vo with the
-    independent checker coqchk; records its verdict in the evidence."""
+def run_lines_resilient(exe, lines, timeout=900, env=None, max_deaths=5):
+    """Like run_lines, but when the harness dies or hangs in the middle it is restarted after
+    the case that killed it.  Returns (outputs, deaths): outputs[i] is None for a case that
+    killed the harness (or was not reached after max_deaths); deaths = [(index, rc, stderr tail)]."""
+    outs = [None] * len(lines)
+    deaths = []
+    start = 0
+    while start < len(lines) and len(deaths) <= max_deaths:
+        try:
+            rc, o, err = run_lines(exe, lines[start:], timeout=timeout, env=env)
+        except subprocess.TimeoutExpired as e:
+            o = (e.stdout or b"").decode("utf-8", "replace").split("\n")
+            if o and o[-1] == "":
+                o.pop()
+            elif o:
+                o.pop()          # incomplete last line
+            rc, err = "timeout", ""
+        n = min(len(o), len(lines) - start)
+        outs[start:start + n] = o[:n]
+        if start + n >= len(lines):
+            break
+        deaths.append((start + n, rc, err[-300:]))
+        start = start + n + 1
+    return outs, deaths
+
+
+def coqchk(check, modules=None, timeout=1800):
+    """thorough tier: re-check the compiled closure of the property files with the stand-alone
+    checker coqchk; anything other than 'Axioms: <none>' etc. is recorded as broken.
+    modules defaults to PP.Props.Properties_<id>."""
+    if not isinstance(modules, (list, tuple)):
+        if isinstance(modules, (int, float)):
+            timeout = modules
+        modules = ["PP.Props.Properties_%s" % check.prop]
     with Lock("coq"):
-        rc, out = run(["coqchk", "-silent", "-o", "-Q", "theories", "PP", "PP.Props.Properties_%s" % check.prop], cwd=COQ, timeout=timeout)
+        rc, out = run(["coqchk", "-silent", "-o", "-Q", "theories", "PP"] + list(modules), cwd=COQ, timeout=timeout)
     text = out.decode("utf-8", "replace")
     ok = rc == 0 and "Axioms: <none>" in text and "type-in-type: <none>" in text and "unsafe (co)fixpoints: <none>" in text
-    check.cov["coqchk"] = " ".join(text.split())[-400:] if text.strip() else "rc=%s" % rc
-    check.cov["trusted_base"].append("coqchk -o over the .vo closure of Properties_%s: %s" % (check.prop, "passed, no axioms" if ok else "FAILED"))
+    check.cov["coqchk"] = "ok: " + " ".join(text.split())[-300:] if ok else "FAILED: " + text[-600:]
+    check.cov["trusted_base"].append("coqchk -o over " + " ".join(modules) + (": Axioms <none>" if ok else ": FAILED"))
     if not ok:
-        check.broken.append("coqchk on Properties_%s: rc=%s %s" % (check.prop, rc, text[-400:]))
+        check.broken.append("coqchk failed on %s: %s" % (" ".join(modules), text[-400:]))
     return ok
